@@ -865,17 +865,28 @@ def _process_graph_io_arguments(iofile, graph_type, file_format, multi_edges):
     return (grtype, file_format)
 
 
+def _label_sort_key(label):
+    """Numeric labels sort numerically, also when they are strings
+
+    Readers like the one for dot files produce vertex labels like '2'
+    and '10', which must not be compared as text."""
+    if isinstance(label, int):
+        return (0, label, '')
+    if isinstance(label, str) and label.lstrip('-').isdigit():
+        return (0, int(label), '')
+    return (1, 0, label)
+
+
 def normalize_networkx_labels(G):
     """Relabel all vertices as integer starting from 1"""
     # Normalize GML file. All nodes are integers starting from 1
     try:
-        G = networkx.convert_node_labels_to_integers(
-            G, first_label=1, ordering='sorted')
+        nodes = sorted(G.nodes(), key=_label_sort_key)
     except TypeError:
         # Ids cannot be sorted natively
-        G = networkx.convert_node_labels_to_integers(
-            G, first_label=1, ordering='default')
-    return G
+        nodes = list(G.nodes())
+    mapping = {v: i for i, v in enumerate(nodes, start=1)}
+    return networkx.relabel_nodes(G, mapping)
 
 
 def readGraph(input_file,
